@@ -24,10 +24,10 @@ theorem g0_ok : GraphOK g0 := by
     · cases h; decide
     · cases h
 
-def a0 : Run.Args := Run.Args.mk 2 (some 1) false 0 [] [] []
+def a0 : Run.Args := Run.Args.mk 2 (some 1) false 0 [] [] [] none
 
 /-- The same with `-k 0` (keep going without limit). -/
-def a1 : Run.Args := Run.Args.mk 2 none false 0 [] [] []
+def a1 : Run.Args := Run.Args.mk 2 none false 0 [] [] [] none
 
 /-- Everything dirty, both commands succeed. -/
 def c0 : Choices Unit := Choices.mk (fun e _ => (some true, e)) (fun e _ => e) (fun e _ => e)
